@@ -38,7 +38,7 @@ func init() {
 				}
 				return 150_000
 			}, Run: c20Generator,
-				Min: map[string]int64{"strings": 100000, "implicit_repeats": 20000, "move_demoted_to_line": 5000, "subpaths": 20000, "arcs": 20000, "no_transform": 10000, "with_transform": 50000, "relative_first_move": 10000,
+				Min: map[string]int64{"strings": 100000, "implicit_repeats": 20000, "move_demoted_to_line": 5000, "subpaths": 20000, "arcs": 20000, "no_transform": 10000, "with_transform": 50000, "relative_first_move": 10000, "transform_slice_reused": 10000,
 					"verb_H": 1000, "verb_h": 1000, "verb_V": 1000, "verb_v": 1000, "verb_T": 1000, "verb_t": 1000, "verb_S": 1000, "verb_s": 1000, "verb_Q": 1000, "verb_q": 1000, "verb_C": 1000, "verb_c": 1000, "verb_A": 1000, "verb_a": 1000}},
 			{Name: "converter", N: func(t string) uint64 {
 				if t == "thorough" {
@@ -205,6 +205,24 @@ func c20Generator(c *run.Ctx, idx uint64) {
 			g.SetTransform(generate.Scale(fsx, fsy), generate.Translate(ftx, fty))
 			sx, sy, tx, ty = float64(fsx), float64(fsy), float64(ftx), float64(fty)
 			tdesc = fmt.Sprintf("Scale(%g,%g) then Translate(%g,%g)", fsx, fsy, ftx, fty)
+		}
+		if mode == 5 {
+			// The caller keeps its transforms in a slice and configures the
+			// generator from it before every path; the slice is the caller's.
+			ts := []generate.Aff3{generate.Scale(fsx, fsy), generate.Translate(ftx, fty)}
+			keep := append([]generate.Aff3(nil), ts...)
+			g.SetTransform(ts...)
+			pre := &rec.Dest{}
+			g.SetDestination(pre)
+			g.SetPathData("M1 2L3 4z", 0)
+			g.SetTransform(ts...)
+			g.SetDestination(d)
+			c.Count("transform_slice_reused", 1)
+			tdesc += " (from a caller-held slice, configured twice)"
+			if ts[0] != keep[0] || ts[1] != keep[1] {
+				c.Violate("generator/caller-transform-slice-modified", map[string]interface{}{"transform": tdesc, "slice_now": fmt.Sprint(ts)})
+				return
+			}
 		}
 	}
 	c.Count("strings", 1)
